@@ -88,7 +88,11 @@ HOSTILE = {
     "p": "a", "lt": "<", "gt": ">", "amp": "&", "quot": '"', "apos": "'", "sp": " ", "cdend": "]]>", "entity": "&amp;", "comment": "<!-- x -->",
     "lbrace": "{", "rbrace": "}", "dollar": "$", "astral": "\U0001F600", "rtl": "של", "numref": "&#10;", "tag": "<b>x</b>", "pi": "<?x y?>",
     "zwnj": "\u200c", "rlm": "\u200f", "zwsp": "\u200b",
+    # function-like text (Gen_Xml.FunctionLike): acted upon in expression cells, plain text in text places
+    "fn_pulldata": "pulldata('fruits', 'name', 'k', 'v')", "fn_search": "search('fruits')", "fn_itext": "jr:itext('/data/q_label:label')", "fn_now": "once(now())",
 }
+# channels whose cell is an expression or a directive rather than text: function-like text means something there
+EXPRESSION_PLACES = {"default", "appearance"}
 
 
 def tok(text):
@@ -114,11 +118,15 @@ INSTANCE_OK = {"p", "lt", "gt", "sp", "apos"}
 def build(classes, seed=0, only=None, with_instance=None):
     """One form carrying the same hostile string (prefixed per channel) in every channel. -> wb, src channels"""
     s = "".join(HOSTILE[c] for c in classes)
+    fnlike = any(c.startswith("fn_") for c in classes)
     chans = {}
 
+    def excluded(ch):
+        return bool((only and ch not in only) or (fnlike and ch in EXPRESSION_PLACES))
+
     def put(ch, prefix="K"):
-        if only and ch not in only:
-            return None
+        if excluded(ch):
+            return f"{prefix}{ch}xay"          # kept benign and not recorded as a channel (excluded by `only`, or the cell is not a text place)
         t = f"{prefix}{len(chans)}x{s}y"
         chans[ch] = t
         return t
@@ -135,9 +143,9 @@ def build(classes, seed=0, only=None, with_instance=None):
     q.append({"type": "text", "name": "q_attrs", "label": "QT", "bind::foo": put("bind_attr"), "instance::bar": put("instance_attr"), "body::baz": put("body_attr")})
     q.append({"type": "begin group", "name": "grp", "label": put("group_label")})
     def put_full(ch, fmt):
+        if excluded(ch):
+            return fmt % put(ch)
         t = put(ch)
-        if t is None:
-            return None
         chans[ch] = fmt % t
         return chans[ch]
 
